@@ -467,6 +467,18 @@ def s1_zeroize():
         yield 'zeroize/incomparable/tuple/' + tag, st('S', unnamed(2, [['T'], ['u8']]), [dw(['incomparable']), dw(ts)], 'Unnamed')
         yield 'zeroize/incomparable/enum_item/' + tag, en('E', [variant('A', 'Unnamed', unnamed(2, [['T'], ['u8']])), variant('B')], [dw(ts), dw(['incomparable'])])
         yield 'zeroize/incomparable/variant_skip/' + tag, en('E', [variant('A', 'Unnamed', unnamed(2, [['T'], ['u8']], [sk, []]), inc_), variant('B', 'Named', named(1, [['T']]))], [dw(ts)])
+    # every ordered combination of up to three field-level options, under no / a partial parent skip_inner
+    fo = {'skip_Debug': skip_meta('skip', ['Debug']), 'skip_Hash': skip_meta('skip', ['Hash']), 'skip_Zeroize': skip_meta('skip', ['Zeroize']),
+          'fqs': ('L', P('Zeroize'), [mpath('fqs')], None)}
+    tsf = ['Zeroize', 'ZeroizeOnDrop', 'Debug', 'Hash', 'PartialEq', 'Clone']
+    for r in (1, 2, 3):
+        for combo in itertools.permutations(sorted(fo), r):
+            a = [sub(*[fo[k] for k in combo])]
+            tag = '+'.join(combo)
+            yield 'fopts/plain/struct/' + tag, st('S', named(3, [['u8'], ['T'], ['u16']], [[], a, []]), [dw(tsf)])
+            yield 'fopts/plain/enum/' + tag, en('E', [variant('A'), variant('B', 'Unnamed', unnamed(2, [['T'], ['u8']], [[], a]))], [dw(tsf)])
+            yield 'fopts/inner_EqHashOrd/struct/' + tag, st('S', named(2, [['T'], ['u8']], [a, []]), [dw(tsf), dw([skip_meta('skip_inner', ['EqHashOrd'])])])
+            yield 'fopts/inner_Debug/variant/' + tag, en('E', [variant('A', 'Named', named(2, [['T'], ['u8']], [[], a]), [sub(skip_meta('skip_inner', ['Debug']))]), variant('B')], [dw(tsf)])
     # every order of a skipped, an fqs and a plain field
     for oi, perm in enumerate(itertools.permutations([sk, fq, [], [sub('skip')]], 3)):
         yield 'zeroize/perm/struct/%d' % oi, st('S', named(3, [['T'], ['u8'], ['u16']], list(perm)), [dw(['Zeroize', 'ZeroizeOnDrop', 'Debug'])])
@@ -602,6 +614,19 @@ def s3_invalid():
     for tag, a in (('default_first', [sub('default', 'incomparable')]), ('default_last', [sub('incomparable', 'default')]), ('split', [sub('default'), inc]), ('split_rev', [inc, sub('default')])):
         yield 'inv/inc_both/default_variant/' + tag, E([dw(['Default', 'PartialEq']), dw(['incomparable'])], [variant('A', 'Unnamed', unnamed(1, [['T']]), a), variant('B')])
         yield 'inv/inc_both/default_variant_last/' + tag, E([dw(['incomparable']), dw(['Default', 'PartialOrd', 'PartialEq'])], [variant('A', 'Unnamed', unnamed(1, [['T']])), variant('B', 'Unit', [], a)])
+    # every ordered combination of up to three variant-level options, with and without the item-level `incomparable`, on the first
+    # and on the last variant (what is valid is the model's business; the real macro must agree on each)
+    vo = {'default': 'default', 'incomparable': 'incomparable', 'skip_inner': 'skip_inner', 'skip_inner_Debug': skip_meta('skip_inner', ['Debug'])}
+    tsv = ['Default', 'PartialEq', 'PartialOrd', 'Debug', 'Hash', 'Clone']
+    for r in (1, 2, 3):
+        for combo in itertools.permutations(sorted(vo), r):
+            if 'skip_inner' in combo and 'skip_inner_Debug' in combo:
+                continue
+            a = [sub(*[vo[k] for k in combo])]
+            tag = '+'.join(combo)
+            for itag, ia in (('plain', []), ('item_inc', [dw(['incomparable'])])):
+                yield 'vopts/%s/first/%s' % (itag, tag), E([dw(tsv)] + ia, [variant('A', 'Unnamed', unnamed(2, [['T'], ['u8']]), a), variant('B', 'Named', named(1, [['T']]))])
+                yield 'vopts/%s/last/%s' % (itag, tag), E(ia + [dw(tsv)], [variant('A', 'Named', named(1, [['T']])), variant('B', 'Unnamed', unnamed(2, [['T'], ['u8']]), a)])
     yield 'inv/inc_dup/variant', E([dw(['PartialEq'])], [variant('A', 'Unnamed', unnamed(1, [['T']])), variant('B', 'Unit', [], [sub('incomparable', 'incomparable')])])
     yield 'inv/inc_dup/variant2', E([dw(['PartialEq'])], [variant('A', 'Unnamed', unnamed(1, [['T']])), variant('B', 'Unit', [], [inc, inc])])
     yield 'inv/inc_dup/item', S([dw(['PartialEq']), dw(['incomparable']), dw(['incomparable'])])
